@@ -38,11 +38,17 @@ type zc33FakeS3 struct {
 	mu   sync.Mutex
 	puts []zc33Put
 	bad  []string // requests the fake did not understand
+	// tooLong counts PUTs refused because the key exceeds the store's limit (like S3's
+	// KeyTooLongError: nothing is written).
+	tooLong int
 }
+
+// zc33MaxKey is the object-key limit the fake enforces, as S3 does (1024 bytes of UTF-8).
+const zc33MaxKey = 1024
 
 func (f *zc33FakeS3) reset() {
 	f.mu.Lock()
-	f.puts, f.bad = nil, nil
+	f.puts, f.bad, f.tooLong = nil, nil, 0
 	f.mu.Unlock()
 }
 
@@ -56,6 +62,13 @@ func (f *zc33FakeS3) ServeHTTP(w http.ResponseWriter, r *http.Request) {
 	if r.Method != http.MethodPut || i <= 0 || i == len(p)-1 {
 		f.bad = append(f.bad, r.Method+" "+r.URL.Path)
 		w.WriteHeader(http.StatusBadRequest)
+		return
+	}
+	if len(p[i+1:]) > zc33MaxKey {
+		f.tooLong++
+		w.Header().Set("Content-Type", "application/xml")
+		w.WriteHeader(http.StatusBadRequest)
+		io.WriteString(w, `<?xml version="1.0" encoding="UTF-8"?><Error><Code>KeyTooLongError</Code><Message>Your key is too long</Message></Error>`)
 		return
 	}
 	f.puts = append(f.puts, zc33Put{Bucket: p[:i], Key: p[i+1:], Body: string(body)})
@@ -432,6 +445,101 @@ func TestVerif_C33_S3(t *testing.T) {
 		func(x *venum.X) {
 			overlapBody(x, venum.QT(4, longN), venum.QT([][2]int{{0, 15}}, [][2]int{{0, 15}, {1, -1}, {0, 0}}))
 		})
+
+	// Boundary-length prefixes: the configured Prefix is as long as the store's key limit allows,
+	// or longer. The fake refuses keys over the limit exactly like S3 (nothing is written, Upload
+	// reports an error — allowed: the statement is about keys that ARE written). Whatever the
+	// backend does with such a prefix, the keys it does write must still be pairwise distinct.
+	const keyTail = 36 // length of the unique suffix the unchanged tree appends (a UUID)
+	longLens := venum.QT(
+		[]int{zc33MaxKey - keyTail - 1, zc33MaxKey - keyTail, zc33MaxKey - keyTail + 1, zc33MaxKey - 24, zc33MaxKey - 3, zc33MaxKey - 1, zc33MaxKey, zc33MaxKey + 1, zc33MaxKey + 76},
+		func() []int {
+			var l []int
+			for n := zc33MaxKey - keyTail - 12; n <= zc33MaxKey+2; n++ { // every length across the boundary
+				l = append(l, n)
+			}
+			return append(l, zc33MaxKey+76, 2*zc33MaxKey)
+		}())
+	longTmpl := map[int][2]*S3Storage{}
+	longBody := func(x *venum.X, maxN int, positions []int) {
+		plen := longLens[x.Choose(len(longLens), "prefix-length")]
+		stream := zc33NewStream(positions[x.Choose(len(positions), "entropy-stream")])
+		n := 1 + x.Choose(maxN, "uploads")
+		pair, ok := longTmpl[plen]
+		if !ok {
+			prefix := strings.Repeat("a", plen-1) + "/"
+			for h := range pair {
+				st, err := NewS3Storage("bkt", S3Config{Prefix: prefix, Region: "us-east-1", EndpointURL: srv.URL})
+				if err != nil {
+					venum.EngineError("NewS3Storage(prefix of %d bytes): %v", plen, err)
+					return
+				}
+				pair[h] = st
+			}
+			longTmpl[plen] = pair
+		}
+		fake.reset()
+		vsched.FreezeClock(base)
+		defer vsched.UnfreezeClock()
+		stA, stB := *pair[0], *pair[1]
+		handles := [2]*S3Storage{&stA, &stB}
+		type up struct {
+			key    string
+			handle int
+		}
+		var ups []up
+		var pattern []string
+		rand.Reader = stream
+		defer func() { rand.Reader = realRand }()
+		for i := 0; i < n; i++ {
+			h := 0
+			if i > 0 {
+				h = x.Choose(2, fmt.Sprintf("handle-of-upload-%d", i))
+			}
+			before, rej := len(fake.puts), fake.tooLong
+			_, err := handles[h].Upload([]byte("same-payload"), nil, "")
+			wrote := len(fake.puts) - before
+			switch {
+			case err == nil && wrote == 1:
+				ups = append(ups, up{key: fake.puts[before].Key, handle: h})
+				pattern = append(pattern, "written")
+			case err != nil && wrote == 0 && fake.tooLong > rej:
+				pattern = append(pattern, "refused-key-too-long") // nothing written: nothing to compare
+			default:
+				rand.Reader = realRand
+				venum.EngineError("long-prefix space: Upload %d: err=%v, %d objects written, refused=%d (bad=%v)", i, err, wrote, fake.tooLong-rej, fake.bad)
+				return
+			}
+		}
+		rand.Reader = realRand
+		class := "prefix-leaves-room-for-the-whole-key"
+		switch {
+		case plen >= zc33MaxKey:
+			class = "prefix-fills-the-key-limit"
+		case plen+keyTail > zc33MaxKey:
+			class = "prefix-leaves-room-for-part-of-the-key"
+		}
+		first := map[string]int{}
+		collisions := 0
+		for j, u := range ups {
+			i, seen := first[u.key]
+			if !seen {
+				first[u.key] = j
+				continue
+			}
+			collisions++
+			two := ""
+			if ups[i].handle != u.handle {
+				two = "two-handles:"
+			}
+			x.Failf("C33:s3:key-reused:long-prefix:"+two+class,
+				"Prefix of %d bytes (key limit %d, stream %s): written uploads #%d (handle %d) and #%d (handle %d) both wrote a %d-byte object key ending in %q: the later upload overwrote the earlier one",
+				plen, zc33MaxKey, stream.name(), i, ups[i].handle, j, u.handle, len(u.key), u.key[len(u.key)-min(len(u.key), 40):])
+		}
+		x.Outcome("long-prefix %s uploads=%v collisions=%d", class, pattern, collisions)
+	}
+	venum.Explore(t, venum.Cfg{Name: "s3-boundary-length-prefix", Shardable: true, CheckDeterminism: true},
+		func(x *venum.X) { longBody(x, venum.QT(3, 4), venum.QT([]int{15, 0}, []int{15, 0, -1})) })
 
 	// every interleaving of the two handles, sequences <=3 (quick) / <=4 (thorough)
 	venum.Explore(t, venum.Cfg{Name: "s3-two-handle-sequences", Shardable: true, DevBound: -1, CheckDeterminism: true},
